@@ -317,6 +317,28 @@ func TestVerifC17(t *testing.T) {
 					bad = true
 					return
 				}
+				// A scrape that reports no error claims to be complete: every
+				// configured interface must then at least carry its four state
+				// gauges (their values do not depend on the wildcard content).
+				if o.serr == nil {
+					for _, ifc := range cfg.Interfaces {
+						for _, g := range []string{"advertising", "monitoring", "forwarding", "autoconfiguration"} {
+							k := "corerad_interface_" + g + "{interface=" + ifc.Name + "}"
+							if _, ok := o.scrape[k]; !ok {
+								d := map[string]any{"lifecycle_point": "never-initialised", "missing": k}
+								for kk, v := range det {
+									d[kk] = v
+								}
+								r.Violation(id, "scrape-silently-incomplete@never-initialised", "the scrape reported no error but lacks "+k+" (neither an error nor the current state)", d)
+								bad = true
+								return
+							}
+						}
+					}
+					r.Count("preinit_wildcard_complete_scrapes", 1)
+				} else {
+					r.Count("preinit_scrape_errors", 1)
+				}
 				r.Count("preinit_wildcard_observations", 1)
 			}
 			// L1: initialising — the dial is held open by a gate.
